@@ -14,6 +14,7 @@ def families : List (List String × (List String → String → Verdict)) := [
   (["cmd"], Cmd.handle),
   (["song"], Song.handle),
   (["filter"], Filter.handle),
+  (["pc"], Commands.handle),
 ]
 
 def dispatch (line : String) : String :=
